@@ -1,6 +1,6 @@
 (* Entry points of the extracted model: one number per model function. *)
 From Coq Require Import ZArith List.
-From Tdda Require Import Base.Sexp RefTest.Argv RefTest.Tagged Serial.DateFmt RefTest.CheckStrings RefTest.Artefacts RefTest.Regen Constraints.Model Constraints.Detect.
+From Tdda Require Import Base.Sexp RefTest.Argv RefTest.Tagged Serial.DateFmt RefTest.CheckStrings RefTest.Artefacts RefTest.Regen Constraints.Model Constraints.Detect Constraints.Serialise.
 Import ListNotations.
 Open Scope Z_scope.
 
@@ -17,5 +17,6 @@ Definition dispatch (n : Z) (s : sexp) : sexp :=
   | 9 => verify_entry s
   | 10 => discover_entry s
   | 11 => detect_entry s
+  | 12 => serialise_entry s
   | _ => L [A (-1)]
   end.
